@@ -94,6 +94,19 @@ Theorem C17_wraparound : forall (l : list sched) m d wd, (1 <= m <= 12)%Z -> (1 
 Proof. exact wraparound. Qed.
 Print Assumptions C17_wraparound.
 
+(* ... and stated on the file as written: at every instant exactly one schedule s0 of the file applies — its weekday
+   mask contains the weekday and its season (wrap over the new year included) contains the date — and the price /
+   demand rate returned are those of s0. *)
+Theorem C17_season_and_class : forall name raw, In (name, raw) bundled ->
+  exists L TS, build_all raw = Ok L /\ build raw = Ok TS /\
+  forall t : Z, exists s0 p,
+    filter (fun s => applies s (t_month t) (t_day t) (t_weekday t)) L = [s0] /\
+    get_tariff TS t = Ok p /\
+    latest_breakpoint_rate (s_tariffs s0) (target_hour t) p /\
+    get_demand_charge TS t = Ok (s_demand s0).
+Proof. exact bundled_season_class. Qed.
+Print Assumptions C17_season_and_class.
+
 (* Price vector = per-period lookup at start + k * period (period in minutes, instants in microseconds);
    the first failing period, if any, decides the exception. *)
 Theorem C17_vector : forall TS start n period,
